@@ -129,6 +129,7 @@ func (ex *Exec) InitModule(ld *Loaded) {
 		}
 		g, h = res[0].G, res[0].H
 	}
+	h.Freeze()
 	ex.initHeap = h
 	// init instructions are not part of the per-harness accounting
 	ex.FnInstrs = map[string]int{}
